@@ -6,6 +6,7 @@ set -u
 # resolve a replay file given relative to the caller's directory before changing directory
 if [ "${1:-}" = "replay" ] && [ -n "${2:-}" ]; then REPLAY_FILE=$(readlink -f "$2"); fi
 cd "$(dirname "$0")/sim" || exit 2
+export LIQUID_SIM_VERIF_DIR="$(cd .. && pwd)"
 export CARGO_NET_OFFLINE=true
 build() {
   # 1. instrumenting copy of /repo's working tree (std::sync -> simulator-aware drop-in), 2. build.
